@@ -7,7 +7,8 @@
 Require Import Cirbo.Model.Base Cirbo.Model.Gate Cirbo.Model.Den Cirbo.Model.Circuit Cirbo.Model.Connect
         Cirbo.Model.Eval Cirbo.Model.Sem Cirbo.Model.History Cirbo.Model.WF.
 Require Import Cirbo.Proofs.WFEmplace Cirbo.Proofs.WFStep Cirbo.Proofs.SemExt Cirbo.Proofs.SemRename
-        Cirbo.Proofs.SemReplaceInputs Cirbo.Proofs.SemRemove Cirbo.Proofs.C19Final.
+        Cirbo.Proofs.SemReplaceInputs Cirbo.Proofs.SemRemove Cirbo.Proofs.SemReplaceSub
+        Cirbo.Proofs.C19Final.
 
 (* ================= rename_gate ================= *)
 (* errors exactly when the old label is absent / the new one present *)
@@ -125,6 +126,67 @@ Proof. exact WFRemove.remove_gate_wf. Qed.
 Theorem C19_remove_gate_semantics : forall c l c' a, WF c -> remove_gate c l = Ok c' ->
   forall x v, x <> l -> (Eval c' a x v <-> Eval c a x v).
 Proof. exact remove_gate_sem. Qed.
+
+(* ================= replace_subcircuit ================= *)
+(* ren_all (imap ++ omap) is the composite of the renamings performed by the operation
+   (Proofs/SemReplaceSub.v); on success it sends every mapped gate to its mapped label and fixes
+   every other label *)
+Theorem C19_replace_subcircuit_renaming : forall c sub imap omap fresh c',
+  Inv c -> replace_subcircuit c sub imap omap fresh = Ok c' ->
+  (forall k v, In (k, v) (imap ++ omap) -> ren_all (imap ++ omap) k = v) /\
+  (forall l, ~ In l (dkeys imap ++ dkeys omap) -> ren_all (imap ++ omap) l = l).
+Proof. exact replace_subcircuit_rho'. Qed.
+
+Theorem C19_replace_subcircuit_well_formed : forall c sub imap omap fresh c',
+  Inv c -> Inv sub -> replace_subcircuit c sub imap omap fresh = Ok c' -> Inv c'.
+Proof. exact replace_subcircuit_inv'. Qed.
+
+(* Functional equivalence under the correspondence, for the host assignment a: whenever b gives
+   the mapped inputs of the replacement the values of the corresponding host gates, the
+   replacement has at every mapped output the value of the corresponding host gate.  (This is
+   implied by "for every assignment of the cut the two compute the same outputs".)
+   Then every surviving gate keeps its value, modulo the renaming of the mapped gates.  A gate x
+   of c survives iff its renamed label is still a gate and is not an internal gate of the
+   replacement (labels of internal gates of the replacement are new: add_gate rejects others). *)
+Theorem C19_replace_subcircuit_semantics : forall c sub imap omap fresh c' a a',
+  Inv c -> Inv sub -> arity_ok c -> replace_subcircuit c sub imap omap fresh = Ok c' ->
+  (forall l, In l (inputs c) -> aval a' (ren_all (imap ++ omap) l) = aval a l) ->
+  (forall b, (forall k, In k (dkeys imap) -> Eval c a k (aval b (ren_all (imap ++ omap) k))) ->
+             forall k v, In k (dkeys omap) -> Eval c a k v -> Eval sub b (ren_all (imap ++ omap) k) v) ->
+  forall x v, has_gate c x = true -> has_gate c' (ren_all (imap ++ omap) x) = true ->
+    has_gate sub (ren_all (imap ++ omap) x) = false \/
+    In (ren_all (imap ++ omap) x) (dvals imap ++ dvals omap) ->
+    (Eval c' a' (ren_all (imap ++ omap) x) v <-> Eval c a x v).
+Proof. exact replace_subcircuit_sem'. Qed.
+
+(* in particular the truth table of the whole circuit is unchanged *)
+Theorem C19_replace_subcircuit_truth_table : forall c sub imap omap fresh c' a a',
+  Inv c -> Inv sub -> arity_ok c -> replace_subcircuit c sub imap omap fresh = Ok c' ->
+  (forall l, In l (inputs c) -> aval a' (ren_all (imap ++ omap) l) = aval a l) ->
+  (forall b, (forall k, In k (dkeys imap) -> Eval c a k (aval b (ren_all (imap ++ omap) k))) ->
+             forall k v, In k (dkeys omap) -> Eval c a k v -> Eval sub b (ren_all (imap ++ omap) k) v) ->
+  outputs c' = map (ren_all (imap ++ omap)) (outputs c) /\
+  forall vs, Forall2 (Eval c' a') (outputs c') vs <-> Forall2 (Eval c a) (outputs c) vs.
+Proof. exact replace_subcircuit_outputs_sem'. Qed.
+
+(* or it raises one of the documented errors (the model's fuel is adequate: never OutOfFuel) *)
+Theorem C19_replace_subcircuit_errors : forall c sub imap omap fresh e,
+  Inv c -> Inv sub -> replace_subcircuit c sub imap omap fresh = Err e ->
+  In e [ReplaceSubcircuitError; CreateBlockError; DeleteBlockError; CircuitValidationError;
+        CircuitGateAlreadyExistsError; CircuitGateIsAbsentError; GateDoesntExistError].
+Proof. exact replace_subcircuit_errors'. Qed.
+
+(* non-vacuity: host  out = OR(NOT(AND(x,y)), x), the slice {AND, NOT} between the cut {x, y} and
+   the gate h is replaced by h = NAND(x,y); all hypotheses of the semantic theorems hold *)
+Example C19_replace_subcircuit_example :
+  Inv C19_rs_host /\ Inv C19_rs_sub /\ arity_ok C19_rs_host /\
+  (exists c', replace_subcircuit C19_rs_host C19_rs_sub C19_rs_imap C19_rs_omap "f" = Ok c' /\ size c' = 4) /\
+  forall a b,
+    (forall k, In k (dkeys C19_rs_imap) ->
+       Eval C19_rs_host a k (aval b (ren_all (C19_rs_imap ++ C19_rs_omap) k))) ->
+    forall k v, In k (dkeys C19_rs_omap) -> Eval C19_rs_host a k v ->
+      Eval C19_rs_sub b (ren_all (C19_rs_imap ++ C19_rs_omap) k) v.
+Proof. exact C19_rs_ok. Qed.
 
 (* ================= non-vacuity ================= *)
 Example C19_example :
